@@ -189,6 +189,11 @@ func typedSlice[T any](env *Env, v *common.Sx, f func(*common.Sx) T, mk func(n i
 	if len(out) > 0 && env.N%2 == 0 {
 		for _, p := range env.slices {
 			if prev, ok := p.([]T); ok && len(prev) > len(out) && reflect.DeepEqual(prev[:len(out)], out) {
+				if env.N%4 == 0 {
+					// with the spare capacity of the longer slice (seed C11-9: a Combine written as append(a, b...) writes into
+					// the left operand's backing array, i.e. into the other operand)
+					return prev[:len(out)]
+				}
 				return prev[:len(out):len(out)]
 			}
 		}
